@@ -590,6 +590,7 @@ def run(ctx):
                "exception classes that can propagate out of the receive thread function: " + (", ".join(sorted(own)) or "none"),
                fi.loc)
     ctx.floor("C04.escape", 16, "(loop, exception class) pairs")
+    discard_before_state(ctx, mr)
 
     ctx.floor("C04.handler-total", 5, "handlers inside the receive loops")
 
@@ -654,3 +655,117 @@ def run(ctx):
            "every callback receives the frame read from the socket with its ethernet header of 14 octets stripped" if not bad_payload
            else "callback payload is not `<frame>[14:]`: " + "; ".join(bad_payload), f"{raw.module.rel}:{cbs[0].lineno}")
     ctx.floor("C04.filter", 4)
+
+
+# ---------------------------------------------------------------------------------------------------------------------
+# a frame that is going to be discarded because of what it CONTAINS must be discarded before it changed any state
+# ---------------------------------------------------------------------------------------------------------------------
+STATE = [("geonet.location_table.LocationTable", "loc_t"),
+         ("geonet.location_table.LocationTableEntry", "position_vector"), ("geonet.location_table.LocationTableEntry", "tst"),
+         ("geonet.location_table.LocationTableEntry", "pdr"), ("geonet.location_table.LocationTableEntry", "is_neighbour"),
+         ("geonet.location_table.LocationTableEntry", "dpl_set"), ("geonet.location_table.LocationTableEntry", "dpl_deque"),
+         ("geonet.location_table.LocationTableEntry", "ls_pending"),
+         ("geonet.router.Router", "_cbf_buffer"), ("geonet.router.Router", "_ls_packet_buffers"), ("geonet.router.Router", "_ls_timers"),
+         ("geonet.router.Router", "_ls_retransmit_counters")]
+# exception classes that are a verdict on the frame's content (malformed / out-of-range fields)
+CONTENT_ERRORS = ("DecodeError", "DecapError", "ValueError", "KeyError", "IndexError", "ZeroDivisionError", "struct.error", "error",
+                  "TypeError", "OverflowError", "AssertionError", "UnicodeDecodeError", "AttributeError")
+
+
+def _positions(fi):
+    """node id -> list of (id(block list), index) from the function body down to the statement holding the node."""
+    pos = {}
+
+    def walk_block(lst, prefix):
+        for i, s in enumerate(lst):
+            here = prefix + [(id(lst), i)]
+            for n in ast.walk(s):
+                if id(n) not in pos or len(pos[id(n)]) < len(here):
+                    pos[id(n)] = here
+            for fld in ("body", "orelse", "finalbody"):
+                sub = getattr(s, fld, None)
+                if isinstance(sub, list) and sub and isinstance(sub[0], ast.stmt):
+                    walk_block(sub, here)
+            for h in getattr(s, "handlers", []) or []:
+                walk_block(h.body, here)
+    walk_block(fi.node.body, [])
+    return pos
+
+
+def _after(pos, a, b) -> bool:
+    """b can execute after a on some path of straight-line order: they share a block in which a's statement comes first."""
+    pa, pb = pos.get(id(a)), pos.get(id(b))
+    if not pa or not pb:
+        return False
+    for (ba, ia), (bb, ib) in zip(pa, pb):
+        if ba != bb:
+            return False
+        if ia < ib:
+            return True
+        if ia > ib:
+            return False
+    return False
+
+
+def discard_before_state(ctx, mr):
+    from . import gnutil as G
+    from ..summaries import Writes
+    P = ctx.prog
+    W = Writes(ctx, STATE)
+    n_handlers = 0
+    for h in G.receive_handlers(ctx):
+        fi = h.fi
+        fl = ctx.flows.get(fi)
+        pos = _positions(fi)
+        calls = sorted(P.calls_in(fi), key=lambda c: (c.lineno, c.col_offset))
+        mut = []
+        for c in calls:
+            callees, _direct = mr.call_effect(fi, c)
+            w = set()
+            for t in callees:
+                w |= W.of(t)
+            if w:
+                mut.append((c, w))
+        if not mut:
+            continue
+        n_handlers += 1
+        first, wset = mut[0]
+        late = []
+        # calls after the first state change that can still raise a content error not caught inside the handler
+        for c in calls:
+            if c is first or not _after(pos, first, c):
+                continue
+            callees, direct = mr.call_effect(fi, c)
+            exc = dict(direct)
+            for t in callees:
+                for e, wit in mr.of(t).items():
+                    exc.setdefault(e, wit)
+            for e, wit in exc.items():
+                base = e.split(".")[-1]
+                if base not in CONTENT_ERRORS and e not in CONTENT_ERRORS:
+                    continue
+                caught = False
+                for t_, _k in fl.enclosing_handlers(c):
+                    if isinstance(t_, ast.Try):
+                        for hh in t_.handlers:
+                            types = [] if hh.type is None else ([mr.alg.ident(fi, x) or TOP for x in hh.type.elts] if isinstance(hh.type, ast.Tuple)
+                                                                else [mr.alg.ident(fi, hh.type) or TOP])
+                            if mr.alg.caught_by(e, types):
+                                caught = True
+                if not caught:
+                    late.append((c, e, wit))
+        # divisions evaluated in the handler itself after the first state change
+        for n in ast.walk(fi.node):
+            if isinstance(n, ast.BinOp) and isinstance(n.op, (ast.Div, ast.FloorDiv, ast.Mod)) and _after(pos, first, n):
+                if P.try_fold(fi.module, n.right, default=None) is None and not mr._divisor_guarded(fi, n):
+                    late.append((n, "ZeroDivisionError", f"{fi.module.rel}:{n.lineno} division by `{unparse(n.right)[:40]}`"))
+        ok = not late
+        detail = (f"the first state change ({unparse(first.func)}(...), writes {sorted(wset)[:3]}) comes after every step that can reject the frame "
+                  "for its content") if ok else (
+            f"after the state change at line {first.lineno} ({unparse(first.func)}(...)) the frame can still be rejected: "
+            + "; ".join(f"line {getattr(c, 'lineno', '?')}: {e} ({wit[:140]})" for c, e, wit in late[:3])
+            + " - a frame discarded for its content has already updated the location table / duplicate list, so a later well-formed "
+              "frame is treated differently (e.g. dropped as duplicate)")
+        ctx.ob("C04.discard-before-state", fi.short(), "content-errors-precede-state", ok, detail, f"{fi.module.rel}:{first.lineno}")
+    if n_handlers < 5:
+        raise AnalysisError(f"C04: only {n_handlers} receive handlers with a state change found (confirmed: 8)")
